@@ -50,9 +50,15 @@ def nljChunked (c : Cfg) (chunks : List (List Row)) (R : List Row) : List Row :=
   (chunks.flatMap fun ch => R.flatMap (pairs c ch) ++ chunkLeftEmit c ch R)
     ++ R.flatMap fun r => rightEmit c (globalRightMatched c chunks r) r
 
-/-- the upstream defect (notes/C05.md): when the batch that trips the limit is the last left batch the
-    stream ends without the global right-side emission -/
+/-- the PINNED UPSTREAM behaviour (repaired in /repo by `fix:` commit c1e5d66, notes/C05.md): when the
+    batch that trips the limit is the last left batch the stream ended without the global right-side
+    emission -/
 def nljChunkedSkippingGlobalRight (c : Cfg) (chunks : List (List Row)) (R : List Row) : List Row :=
   chunks.flatMap fun ch => R.flatMap (pairs c ch) ++ chunkLeftEmit c ch R
+
+/-- `fixed = true`: the code after c1e5d66 (what /repo contains); `false`: the pinned upstream code on
+    inputs whose last left batch trips the memory limit -/
+def nljMemLimited (fixed : Bool) (c : Cfg) (chunks : List (List Row)) (R : List Row) : List Row :=
+  if fixed then nljChunked c chunks R else nljChunkedSkippingGlobalRight c chunks R
 
 end DfModel.Mech.Nlj
